@@ -129,15 +129,64 @@ def gen_late_browser_family(rng):
                     "dups": rng.choice(["none", "none", "some"])}}
 
 
+PTR_TTLS = [120, 600, 1125, 1126, 1200, 1500, 2000, 3000, 4500, 9000]   # other_ttl; below 1125 the cache raises it to the floor
+HOST_TTLS = [None, None, 30, 120, 600]
+
+
+def mixed_ttls(rng, svcs, p=0.6):
+    """non-default TTLs per service (PTR/TXT: other_ttl, SRV/address: host_ttl), mixed within one type"""
+    for sv in svcs:
+        if rng.random() < p:
+            sv["other_ttl"] = rng.choice(PTR_TTLS)
+        if rng.random() < 0.3:
+            sv["host_ttl"] = rng.choice(HOST_TTLS)
+    return svcs
+
+
+def gen_mixed_ttl_family(rng):
+    """long horizon (c): a browser that has finished its start-up queries (asleep until the earliest refresh it knows) learns
+    services of its type with different PTR TTLs, registered in either order (long TTL first then a shorter one: the armed wake-up
+    has to move earlier; or the short one first), 1-120 s apart; observed every few minutes for 1.5-2.5 virtual hours"""
+    nh = rng.choice([2, 2, 3])
+    nsvc = rng.choice([2, 2, 3])
+    ttls = [rng.choice(PTR_TTLS) for _ in range(nsvc)]
+    if rng.random() < 0.7:  # make sure long and short are both present
+        ttls[0], ttls[1] = rng.choice([4500, 9000, 3000]), rng.choice([120, 1125, 1200, 1500, 2000])
+        if rng.random() < 0.5:
+            ttls[0], ttls[1] = ttls[1], ttls[0]
+    svcs = [{"owner": rng.choice([0, 0, nh - 1]) if nh == 3 else 0, "ty": 0, "other_ttl": ttls[i]} for i in range(nsvc)]
+    for sv in svcs:
+        if rng.random() < 0.3:
+            sv["host_ttl"] = rng.choice(HOST_TTLS)
+    ops = [[rng.choice([0, 1, rng.randint(0, 300)]), "browse", 1, 0]]
+    if nh == 3 and rng.random() < 0.5:
+        ops.append([rng.choice([0, rng.randint(0, 60000)]), "browse", 2, 0])
+    t = rng.choice([1000, rng.randint(0, 3000), rng.randint(16000, 40000)])
+    for i in range(nsvc):
+        ops.append([t, "register", i])
+        t += rng.choice([1000, 5000, 16000, 29000, 60000, rng.randint(400, 120000)])
+    if rng.random() < 0.25:
+        ops.append([t + rng.randint(0, 600000), "update", rng.randrange(nsvc)])
+    ops.sort(key=lambda o: (o[0], o[1]))
+    return {"simseed": rng.randrange(1 << 30), "hosts": [{"up": 0} for _ in range(nh)], "types": 1, "svcs": svcs, "ops": ops,
+            "horizon": rng.choice([5400000, 7500000, 9000000]), "every": rng.choice([120000, 240000, 300000]), "family": "mixed-ttl-long",
+            "net": {"seed": rng.randrange(1 << 30), "mode": rng.choice(["uniform", "extreme", "mixed"]), "drop": None,
+                    "dups": rng.choice(["none", "none", "some"])}}
+
+
 def gen_case(rng, idx=0, long_p=0.05):
-    # the first scenarios of every run are long-horizon ones (alternating), then each long family with probability long_p
+    # the first scenarios of every run are long-horizon ones (cycling through the families), then each with probability long_p
     if idx < 6:
-        return gen_flap_family(rng) if idx % 2 == 0 else gen_late_browser_family(rng)
+        c = [gen_flap_family, gen_late_browser_family, gen_mixed_ttl_family][idx % 3](rng)
+        if idx >= 3 and c["family"] != "mixed-ttl-long":
+            mixed_ttls(rng, c["svcs"])
+        return c
     r = rng.random()
-    if r < long_p:
-        return gen_flap_family(rng)
-    if r < 2 * long_p:
-        return gen_late_browser_family(rng)
+    if r < 3 * long_p:
+        c = [gen_flap_family, gen_late_browser_family, gen_mixed_ttl_family][int(r / long_p)](rng)
+        if c["family"] != "mixed-ttl-long" and rng.random() < 0.5:
+            mixed_ttls(rng, c["svcs"])
+        return c
     if rng.random() < 0.12:
         return gen_close_family(rng)
     nh = rng.choice([2, 2, 3, 3, 4, 5])
@@ -391,8 +440,13 @@ def run_case(case):
         s = svcs[i]
         h = hosts[s["owner"]]
         ty = TYPES[s["ty"]]
+        kw = {}
+        if s.get("other_ttl") is not None:
+            kw["other_ttl"] = s["other_ttl"]  # TTL of the PTR (and TXT) record
+        if s.get("host_ttl") is not None:
+            kw["host_ttl"] = s["host_ttl"]  # TTL of SRV / address records
         return ServiceInfo(ty, svc_name(i, s["ty"]), 8000 + 10 * i + ver, addresses=[socket.inet_aton(h.ip)],
-                           server="h%d.local." % s["owner"], properties={"k": "v%d" % ver, "i": str(i)})
+                           server="h%d.local." % s["owner"], properties={"k": "v%d" % ver, "i": str(i)}, **kw)
 
     def advertise(i, info):
         versions[i].append({"t": now(), "port": info.port, "server": info.server, "txt": info.text.hex(),
@@ -1092,8 +1146,11 @@ def check_case(case, res, ctx, tag, lean_jobs):
     mon = monitors(tr, endT)
     conc = conclusion(tr, endT)
     brief = {"case": case, "tag": tag}
+    failed0 = sorted(k for k, w in mon.items() if w)
     for sig, what in vio:
-        res.violate(sig, what, brief)
+        # name the contracts that the same run violates (e.g. a false Removed after a missed refresh: K3b, KF)
+        res.violate(sig, what + (" [contracts violated on this run: %s]" % ", ".join(
+            "%s (%s)" % (k, mon[k][0][0]) for k in failed0) if failed0 else ""), brief)
     if obs["inflight"]:
         res.notes.append("registration still in flight at the end: %s" % tag)
     if obs["errors"]:
